@@ -261,3 +261,70 @@ func (r *run) addBlockWithConcurrentFlush(n *Node, raw []byte, withGC bool) (add
 	}
 	return addErr, flushErr
 }
+
+// addBlockFromTwoSources hands the same block to the node from two goroutines (the network's block queue and an RPC
+// submitblock, say): the first one is parked at a tape-chosen yield inside its AddBlock (it holds the ledger's add
+// lock there), then the second one calls AddBlock with the same bytes and is left to run until it waits for that lock;
+// then the first one is released. Exactly one of them may apply the block; the other one is told it exists already.
+// (The second caller has the interleaver role "flusher": that role never parks outside Persist.)
+func (r *run) addBlockFromTwoSources(n *Node, raw []byte) (firstErr, secondErr error) {
+	il := &interleaver{role: map[uint64]string{}, count: map[string]int{}, parkAt: map[string]map[int]bool{"adder": {}},
+		parked: map[string]chan struct{}{}, sites: map[string]string{}, finished: map[string]bool{}, depth: map[uint64]int{}}
+	il.parkAt["adder"][1+r.tape.Choose(120)] = true
+	storage.VerifLockYield = il.hook
+	defer func() { storage.VerifLockYield = nil }()
+	var wg sync.WaitGroup
+	var pv1, pv2 *sim.Violation
+	wg.Add(2)
+	go func() {
+		defer wg.Done()
+		il.mu.Lock()
+		il.role[curGoroutineID()] = "adder"
+		il.mu.Unlock()
+		pv1 = sim.Recover(func() { firstErr = n.AddBlockBytes(raw) })
+		il.mu.Lock()
+		il.finished["adder"] = true
+		il.mu.Unlock()
+	}()
+	sim.Wait() // first caller parked inside AddBlock, or finished
+	inside := il.isParked("adder")
+	go func() {
+		defer wg.Done()
+		il.mu.Lock()
+		il.role[curGoroutineID()] = "flusher"
+		il.mu.Unlock()
+		pv2 = sim.Recover(func() { secondErr = n.AddBlockBytes(raw) })
+		il.mu.Lock()
+		il.finished["flusher"] = true
+		il.mu.Unlock()
+	}()
+	for guard := 0; ; guard++ {
+		if guard > 5000 {
+			sim.Harnessf("two sources: too many scheduling steps")
+		}
+		a, s := il.settle()
+		if a != "parked" {
+			if s == "blocked" {
+				continue
+			}
+			break
+		}
+		if s == "blocked" {
+			r.out.Probes["second_source_waited_for_the_add_lock"]++
+		}
+		il.release("adder")
+	}
+	wg.Wait()
+	sim.Wait()
+	if inside {
+		r.out.Probes["same_block_from_two_sources_overlapping"]++
+	} else {
+		r.out.Probes["same_block_from_two_sources_one_after_another"]++
+	}
+	if pv1 != nil {
+		r.violate(pv1)
+	} else if pv2 != nil {
+		r.violate(pv2)
+	}
+	return firstErr, secondErr
+}
